@@ -12,7 +12,8 @@
      forall p req, accepted p -> annotated p req -> forall e1 e2, observe e1 p req = observe e2 p req
    is NOT proved (it is false on the current tree: see the known findings of C12); the per-run
    obligation is [prop_C12] on the outcomes observed for every generated request. *)
-From Gleece Require Import Base.Bytes Model.Interchange Proofs.InterchangeProofs.
+From Gleece Require Import Base.Bytes Model.Project Model.Spec Model.Security Model.Bind Model.Interchange Model.Handler
+     Proofs.InterchangeProofs Proofs.HandlerProofs.
 From Coq Require Import String.
 
 (* the oracle is the property's statement on one request's observations *)
@@ -82,6 +83,45 @@ Example C12_nonvacuous_oracle :
   prop_C12 [(Gin, mkOutcome 200 [] [] (s "1")); (Echo, mkOutcome 200 [] [] (s "1"))] = false.
 Proof. exact (conj demo_oracle_rejects (conj demo_oracle_accepts demo_oracle_needs_all_five)). Qed.
 
+
+(* ---- the absolute leg: the engine-independent handler model (Model/Handler.v) ----
+   [Handler.handle] is ONE function of the abstract project, the decoded request, the script of
+   the instrumented authorization callback and of the echoing controller; it has no engine
+   parameter.  On every run each of the five compiled routers is compared with it on every
+   request (pygen/handlermodel.py: [judge] evaluated by vm_compute on the five observations).
+   Two routers that refine the model on a request show the same status, the same
+   authorization-callback record and the same controller call with the same decoded arguments. *)
+Theorem C12_refinement_agree : forall out o1 o2,
+  is_modelled out = true -> refines out o1 = true -> refines out o2 = true -> o1 = o2.
+Proof. exact refines_agree. Qed.
+
+(* verdict 0 of the per-request obligation: the route exists, the request is inside the modelled
+   fragment, every observed engine shows exactly the model's prediction - hence all are equal *)
+Theorem C12_judge_zero : forall p pkg cn mn tbl sc rq obs,
+  judge p pkg cn mn tbl sc rq obs = 0%nat ->
+  (exists out, handle_in p pkg cn mn tbl sc rq = Some out /\ is_modelled out = true /\
+               forall o, In o obs -> predicted out = Some o) /\
+  forall o1 o2, In o1 obs -> In o2 obs -> o1 = o2.
+Proof. exact judge_zero. Qed.
+
+(* what the common target does, so that "interchangeable" is not agreement on something wrong:
+   the method runs only behind an approved alternative, with the converted values of its own
+   parameters in signature order, and the status is the controller's / 500 / 200 / 204 *)
+Theorem C12_model_invoked : forall cfg c m tbl sc rq tr cn mn args st,
+  handle cfg c m tbl sc rq = (tr, Invoked cn mn args st) ->
+  (gate_alts cfg c m = [] \/
+   exists l, In l (gate_alts cfg c m) /\ forall ck, In ck l -> approved_in tr ck = true) /\
+  cn = c_name c /\ mn = m_name m /\
+  st = status_code sc (match m_ret m with Some _ => true | None => false end) /\
+  exists authn, Forall2 (arg_spec authn rq) (m_params m) args.
+Proof. exact model_invoked. Qed.
+
+Example C12_nonvacuous_model :
+  snd (handle demo_cfg demo_ctrl demo_method [(KNth 0, mkRefusal 401 [])] (mkOp false None) (demo_rq "-128" "7"))
+  = Invoked (s "C") (s "Get")
+            [ACtx (Some 2%N); AVal (Some (VInt (-128))); AVal (Some (VUint 7)); AVal (Some (VStr (s "v")))] 200%N.
+Proof. exact demo_invoked. Qed.
+
 Print Assumptions C12_oracle_spec.
 Print Assumptions C12_outcome_eqb_spec.
 Print Assumptions C12_run_agree_partial.
@@ -91,3 +131,7 @@ Print Assumptions C12_oracle_on_runs.
 Print Assumptions C12_nonvacuous_agree.
 Print Assumptions C12_nonvacuous_differs.
 Print Assumptions C12_nonvacuous_oracle.
+Print Assumptions C12_refinement_agree.
+Print Assumptions C12_judge_zero.
+Print Assumptions C12_model_invoked.
+Print Assumptions C12_nonvacuous_model.
